@@ -18,6 +18,10 @@ struct UserFn { Result operator()() const; };
 struct VoidFn { void operator()() const; };
 typedef AsyncTask<Result> AsyncTaskR;
 typedef std::function<Result()> function_R;
+#ifdef RKCOMMON_TASKING_INTERNAL
+// what an enkiTS worker does with a task set it was handed (set size 1: one partition)
+inline void verif_worker_runs(rkcommon::tasking::detail::Task *t) { t->ExecuteRange(enki::TaskSetPartition{0, 1}, 0); }
+#endif
 namespace verif_use {
 Result result_ctor_default() { return Result(); }
 Result result_ctor_copy(const Result &o) { return Result(o); }
@@ -33,4 +37,7 @@ bool at_finished(const AsyncTaskR &t) { return t.finished(); }
 void at_wait(AsyncTaskR &t) { t.wait(); }
 Result at_get(AsyncTaskR &t) { return t.get(); }
 void sched_schedule(VoidFn f) { schedule(f); }
+#ifdef RKCOMMON_TASKING_INTERNAL
+void run_task(rkcommon::tasking::detail::Task *t) { verif_worker_runs(t); }
+#endif
 }
